@@ -64,7 +64,7 @@ def run_all(tier, seed):
     def fail(key, what, ctx):
         fails.append(common.Failure("oracle", "C17:" + key, what, ctx))
 
-    n_obj = {"quick": 12, "thorough": 150}[tier]
+    n_obj = {"quick": 12, "thorough": 600}[tier]
     with common.scratch_cwd():
         for cname, mk in (("serial", lambda: xo.ContextCpu()), ("openmp", lambda: xo.ContextCpu(omp_num_threads=2))):
             ctx = mk()
